@@ -16,7 +16,7 @@
 (*                         close()    C0 (test) C1 (swap) C2 (drain: queue.get until Empty)         *)
 (*           plus the request I/O (Send / Recv with environment-chosen outcomes incl. a failing    *)
 (*           attempt that is retried), the `finally` of urlopen, the streaming response's release   *)
-(*           at end of body and the explicit release_conn(), and Drop (pool object collected ->     *)
+(*           at end of body, release_conn() on an unfinished body (close, then put) and Drop (pool object collected ->     *)
 (*           weakref.finalize drains whatever the queue object still holds).                        *)
 (*           Named deviation actions (constant Deviations) reproduce seeded mutants / repaired      *)
 (*           defects so that every Rules clause is shown non-vacuous at design level; constant      *)
@@ -35,11 +35,13 @@ CONSTANTS NThreads,    \* request threads are 1..NThreads
           MaxSize, Block,
           Reqs,        \* requests per request thread
           Streaming,   \* BOOLEAN: preload_content=False (response keeps the connection until the body is read)
-          Outcomes,    \* subset of {"ok", "okclose", "fail"}: what the server may do to one attempt
+          Outcomes,    \* subset of {"ok", "okclose", "fail", "partial"}: what the server may do to one attempt
+                       \*   ("partial", Streaming only: the body stalls half-way, the caller reads what is there and
+                       \*   calls release_conn() on the unfinished response)
           MaxFails,    \* failing attempts per request (= the retries the caller allows)
           MaxConn,     \* bound on connection objects ever created
           Deviations,  \* subset of {"D12", "NoAttrArm", "DoublePut", "NoClearConn", "DrainBeforeSwap", "NoBlockRaise",
-                       \*            "LoadOnce"}
+                       \*            "LoadOnce", "PutBeforeClose"}
           Repairs,     \* subset of {"WakeOnClose"}
           KeepHist     \* BOOLEAN: record hist / script (emission runs); FALSE keeps the stage-1 state space small
 
@@ -51,7 +53,8 @@ SENT == MaxConn + 1          \* the wake-up sentinel of the WakeOnClose repair (
 
 (* =============================================== RULES =============================================== *)
 (* o.ptr "open"|"closed"  o.queue Seq(ids, 0 = None)  o.open set of open sockets  o.holds [thread->set]  *)
-(* o.lastio <<thread, conn>> or <<>>  o.cur / o.got [thread -> <<thread, request>> or <<>>]              *)
+(* o.lastio <<thread, conn, "io"|"close">> or <<>>: the socket operation the last step performed         *)
+(* o.cur / o.got [thread -> <<thread, request>> or <<>>]                                                   *)
 (* o.outs set of [o |-> outcome, closed |-> BOOLEAN]  o.dropped  o.alive  o.waiting (sets of threads)    *)
 (* o.pre  threads that were already parked inside queue.get when close() swapped the queue out            *)
 (* o.sep  threads whose checkout obtained its queue reference by a statement of its own (not by the       *)
@@ -62,7 +65,10 @@ IsConn(c) == c # NONE /\ c # SENT
 
 ExclusiveUse(o) ==
     /\ \A t, u \in DOMAIN o.holds : t # u => o.holds[t] \cap o.holds[u] = {}
-    /\ o.lastio # <<>> => o.lastio[2] \in o.holds[o.lastio[1]]
+    \* socket I/O only by the thread that holds the connection; nobody closes a connection another thread holds
+    /\ o.lastio # <<>> =>
+          IF o.lastio[3] = "io" THEN o.lastio[2] \in o.holds[o.lastio[1]]
+          ELSE \A u \in DOMAIN o.holds : u # o.lastio[1] => o.lastio[2] \notin o.holds[u]
 NotPooledWhileUsed(o) == \A t \in DOMAIN o.holds : \A c \in o.holds[t] : ~InQueue(o, c)
 NoDuplicate(o) == \A i, j \in 1..Len(o.queue) : (i # j /\ IsConn(o.queue[i])) => o.queue[i] # o.queue[j]
 BlockBound(o) == Block => Cardinality(o.open) <= MaxSize
@@ -111,7 +117,7 @@ vars == <<ptr, queue, open, wire, holds, lastio, outs, got, cur, dropped, loc, f
 
 Dev(d) == d \in Deviations
 L0 == [pc |-> "idle", conn |-> NONE, lq |-> "none", left |-> Reqs, fails |-> 0, clean |-> FALSE,
-       err |-> "", site |-> "U", sclose |-> FALSE, dbl |-> FALSE, sep |-> FALSE, pre |-> FALSE]
+       err |-> "", site |-> "U", sclose |-> FALSE, dbl |-> FALSE, sep |-> FALSE, pre |-> FALSE, part |-> FALSE]
 
 Init == /\ ptr = "open"
         /\ queue = [i \in 1..MaxSize |-> NONE]
@@ -132,7 +138,7 @@ Parked(p) == /\ p \in Threads /\ Pc(p) = "g3" /\ queue = <<>> /\ Block /\ ~Dev("
 (* ---- urlopen: start of a request *)
 Start(t) == /\ Pc(t) = "idle" /\ loc[t].left > 0
             /\ Set(t, [loc[t] EXCEPT !.pc = "g1", !.left = @ - 1, !.fails = 0, !.err = "", !.site = "U",
-                                      !.conn = NONE, !.clean = FALSE, !.sclose = FALSE, !.dbl = FALSE, !.sep = FALSE])
+                                      !.conn = NONE, !.clean = FALSE, !.sclose = FALSE, !.dbl = FALSE, !.sep = FALSE, !.part = FALSE])
             /\ cur' = [cur EXCEPT ![t] = <<t, Reqs - loc[t].left + 1>>]
             /\ got' = [got EXCEPT ![t] = <<>>]
             /\ UNCHANGED <<ptr, queue, open, wire, holds, outs, dropped, fresh, script, res>>
@@ -185,15 +191,16 @@ Send(t) == /\ Pc(t) = "send"
            /\ LET c == loc[t].conn IN
               /\ open' = open \cup {c}                              \* (re)connect if needed
               /\ wire' = [wire EXCEPT ![c] = Append(IF c \in open THEN @ ELSE <<>>, cur[t])]
-              /\ lastio' = <<t, c>>
+              /\ lastio' = <<t, c, "io">>
            /\ Set(t, [loc[t] EXCEPT !.pc = "recv"])
            /\ UNCHANGED <<ptr, queue, holds, outs, got, cur, dropped, fresh, script, res>>
 Recv(t) == /\ Pc(t) = "recv"
            /\ \E oc \in Outcomes :
               LET c == loc[t].conn IN
               /\ oc = "fail" => loc[t].fails < MaxFails
+              /\ oc = "partial" => Streaming
               /\ script' = IF KeepHist THEN [script EXCEPT ![t] = Append(@, oc)] ELSE script
-              /\ lastio' = <<t, c>>
+              /\ lastio' = <<t, c, "io">>
               /\ IF oc = "fail"
                  THEN /\ wire' = [wire EXCEPT ![c] = <<>>] /\ UNCHANGED open          \* server cut the connection
                       /\ Set(t, [loc[t] EXCEPT !.pc = "fin", !.clean = FALSE, !.fails = @ + 1])
@@ -201,7 +208,7 @@ Recv(t) == /\ Pc(t) = "recv"
                  ELSE /\ got' = [got EXCEPT ![t] = IF wire[c] = <<>> THEN <<0, 0>> ELSE Head(wire[c])]
                       /\ wire' = [wire EXCEPT ![c] = IF oc = "okclose" \/ @ = <<>> THEN <<>> ELSE Tail(@)]
                       /\ open' = IF oc = "okclose" /\ ~Streaming THEN open \ {c} ELSE open
-                      /\ Set(t, [loc[t] EXCEPT !.pc = "fin", !.clean = TRUE, !.sclose = (oc = "okclose")])
+                      /\ Set(t, [loc[t] EXCEPT !.pc = "fin", !.clean = TRUE, !.sclose = (oc = "okclose"), !.part = (oc = "partial")])
            /\ UNCHANGED <<ptr, queue, holds, outs, cur, dropped, fresh, res>>
 
 (* ---- urlopen: finally *)
@@ -213,12 +220,22 @@ Fin(t) == /\ Pc(t) = "fin"
                 /\ Set(t, [loc[t] EXCEPT !.pc = "resp"]) /\ UNCHANGED open
              ELSE Set(t, [loc[t] EXCEPT !.pc = "p2", !.site = "U"]) /\ UNCHANGED open
           /\ UNCHANGED <<ptr, queue, wire, holds, outs, got, cur, dropped, fresh, script, res>>
-\* caller reads the body to its end: last I/O on the connection, then the response releases it
+\* caller reads the body: to its end (last I/O on the connection, then the response releases it by itself),
+\* or - "partial" - only what has arrived, after which the caller calls release_conn() on the unfinished body
 RespRead(t) == /\ Pc(t) = "resp"
-               /\ lastio' = <<t, loc[t].conn>>
+               /\ lastio' = <<t, loc[t].conn, "io">>
                /\ open' = IF loc[t].sclose THEN open \ {loc[t].conn} ELSE open    \* Connection: close
-               /\ Set(t, [loc[t] EXCEPT !.pc = "p2", !.site = "A"])
+               /\ Set(t, [loc[t] EXCEPT !.pc = IF ~loc[t].part THEN "p2" ELSE IF Dev("PutBeforeClose") THEN "p2" ELSE "rc",
+                                         !.site = IF loc[t].part THEN "R" ELSE "A"])
                /\ UNCHANGED <<ptr, queue, wire, holds, outs, got, cur, dropped, fresh, script, res>>
+\* release_conn() of an unfinished response: `self._connection.close()` - and only then _put_conn(connection).
+\* (deviation PutBeforeClose: the connection is put back first and closed afterwards)
+RelClose(t) == /\ Pc(t) = "rc"
+               /\ lastio' = <<t, loc[t].conn, "close">>
+               /\ open' = open \ {loc[t].conn}
+               /\ wire' = [wire EXCEPT ![loc[t].conn] = <<>>]
+               /\ Set(t, [loc[t] EXCEPT !.pc = IF Dev("PutBeforeClose") THEN "end" ELSE "p2"])
+               /\ UNCHANGED <<ptr, queue, holds, outs, got, cur, dropped, fresh, script, res>>
 \* explicit release_conn() afterwards: a no-op because release_conn cleared the back-reference
 RespRelease(t) == /\ Pc(t) = "rel"
                   /\ IF Dev("NoClearConn") THEN Set(t, [loc[t] EXCEPT !.pc = "p2", !.site = "E"])
@@ -261,6 +278,7 @@ PEnd(t) == /\ Pc(t) = "pend"
               IF l.err # "" THEN Set(t, [l EXCEPT !.pc = "end"])
               ELSE IF l.site = "U" /\ ~l.clean THEN Set(t, [l EXCEPT !.pc = "g1", !.dbl = FALSE])   \* retry: urlopen recurses
               ELSE IF l.site = "A" THEN Set(t, [l EXCEPT !.pc = "rel", !.dbl = FALSE])
+              ELSE IF l.site = "R" /\ Dev("PutBeforeClose") THEN Set(t, [l EXCEPT !.pc = "rc"])
               ELSE Set(t, [l EXCEPT !.pc = "end"])
            /\ UNCHANGED <<ptr, queue, open, wire, holds, outs, got, cur, dropped, fresh, script, res>>
 \* the request is over for the caller (response read and released, or exception seen)
@@ -320,7 +338,7 @@ IOStep(A) == A /\ UNCHANGED hist
 ThreadNext(t) ==
     \/ Local(Start(t)) \/ Crit(G1(t), t, "test") \/ Crit(G2(t), t, "load") \/ Crit(G3(t), t, "qget")
     \/ Crit(G3S(t), t, "qput") \/ Local(G4(t)) \/ IOStep(Send(t)) \/ IOStep(Recv(t)) \/ Local(Fin(t))
-    \/ IOStep(RespRead(t)) \/ Local(RespRelease(t))
+    \/ IOStep(RespRead(t)) \/ IOStep(RelClose(t)) \/ Local(RespRelease(t))
     \/ Crit(P2(t), t, "load") \/ Crit(P3(t), t, "qput") \/ Crit(P3Log(t), t, "load") \/ Local(P4(t))
     \/ Local(PEnd(t)) \/ Local(End(t))
 CloserNext(k) == \/ Crit(C0(k), k, "test") \/ Crit(C1(k), k, "swap") \/ Crit(C2(k), k, "qget") \/ Crit(C3(k), k, "qput")
